@@ -48,6 +48,8 @@ def space_for(g):
     identity of a space must not outlive it); the others share one cached Space per metric."""
     g = tuple(g)
     _fresh[0] += 1
+    if len(g) and all(type(v) is int and v == 1 for v in g) and _fresh[0] % 2 == 0:
+        return Space(len(g))        # the Euclidean metric a space gets when none is given
     if _fresh[0] % 3 == 0 and len(g):
         m = np.zeros((len(g), len(g)), dtype=object)
         for i, v in enumerate(g):
@@ -128,7 +130,7 @@ def c_pair(ctx, case):
                          f"of their geometric product is {to_ref(part)}")
     # a plain number as the LEFT operand goes through the reflected operators: s o B must be
     # what MultiVector(s) o B is
-    for s_ in (2, F(-1, 2)):
+    for s_ in (2, F(-1, 2), F(2, 3)):
         S = MultiVector(s_, sp)
         for name, op in PRODUCTS.items():
             if name == "scalar":
@@ -157,6 +159,31 @@ def c_pair(ctx, case):
             if not same(to_ref(-(B * A)), A * B):
                 ctx.fail("C18.pair", case, "anticommute",
                          f"e{i}*e{j} = {to_ref(A*B)} but -(e{j}*e{i}) = {to_ref(-(B*A))}")
+
+
+@check("C18.self")
+def c_self(ctx, case):
+    """ONE multivector object as both operands (A o A, as in a squared norm or A ^ A): every
+    product is what the reference Clifford product of the coefficients with themselves gives."""
+    g, ref = case
+    sp = space_for(g)
+    A = mk(sp, ref)
+    twin = mk(sp, dict(ref))
+    for name, op in PRODUCTS.items():
+        ctx.case(None)
+        ctx.count("same_object_products")
+        want = cl.product(name, ref, ref, g)
+        try:
+            got = op(A, A)
+            got2 = op(A, twin)
+        except Exception as ex:  # noqa: BLE001
+            ctx.fail("C18.self", case, f"self:{name}:raised:{type(ex).__name__}",
+                     f"{name}(A, A) with A = {ref} (metric {g}) raised {type(ex).__name__}: {ex}")
+            continue
+        if not same(want, got) or not same(want, got2):
+            ctx.fail("C18.self", case, f"self:{name}:value",
+                     f"metric diag{g}, A = {ref}: {name}(A, A) with one object = {to_ref(got)}, with "
+                     f"an equal second object = {to_ref(got2)}; the reference product gives {want}")
 
 
 @check("C18.triple")
@@ -480,6 +507,25 @@ def workload(ctx):
         if n <= 3:
             ctx.set_exhaustive(f"dimension {n}: all blade triples", True)
     ctx.sample("blade-pair", "metric diag(1,-1,0): all six products of e(0,1) and e(1,2)")
+    # one object as both operands: homogeneous multivectors of every grade (two to four blades),
+    # mixed-grade ones, exact thirds as coefficients, Euclidean and indefinite metrics
+    for n in (2, 3, 4, 5):
+        for g in ((1,) * n, tuple([1, -1, 2, -1, 1][:n]), tuple([0, 1, -1, 1, 2][:n])):
+            for k in range(0, n + 1):
+                bl = [b for b in cl.all_blades(n) if len(b) == k]
+                for m in (1, 2, 3, 4):
+                    if len(bl) < m or not ctx.mine("self"):
+                        continue
+                    r2 = ctx.sub_rng("self", n, k, m)
+                    ref = {b: r2.choice([F(1), F(-2), F(1, 3), F(3), F(2, 3)]) for b in r2.sample(bl, m)}
+                    ctx.case(("self", g, k, m), True, n=0)
+                    ctx.run("C18.self", (g, ref))
+            for m in (2, 3, 5):
+                if ctx.mine("self"):
+                    r2 = ctx.sub_rng("self-mixed", n, m)
+                    ref = {b: r2.choice([F(1), F(-2), F(1, 3), F(3)])
+                           for b in r2.sample(list(cl.all_blades(n)), min(m, 2 ** n))}
+                    ctx.run("C18.self", (g, ref))
     # random multivectors
     for i in range(ctx.per_shard(ctx.pick(1200, 24000))):
         n = rng.randint(1, 4)
@@ -518,6 +564,7 @@ def workload(ctx):
             ctx.count("dense_multivectors")
             ctx.run("C18.eqhash", (g, A3, B3))
             ctx.run("C18.anyinv", (g, {k_: F(v_) for k_, v_ in A3.items()}))
+    ctx.floor("same_object_products", 600)
     ctx.floor("blade_products", 50000)
     ctx.floor("triples", 20000)
     ctx.floor("inv_checked", 500)
